@@ -13,6 +13,7 @@ import (
 
 	"github.com/google/gopacket"
 	"github.com/scionproto/scion/pkg/addr"
+	"github.com/scionproto/scion/pkg/drkey"
 	"github.com/scionproto/scion/pkg/slayers"
 	"github.com/scionproto/scion/pkg/snet"
 	"github.com/scionproto/scion/pkg/spao"
@@ -71,6 +72,10 @@ func c13World(t *testing.T, r *simcore.Run) any {
 	}
 	w := newSCIONWorld(r, time.Duration(tp.Range(0, int64(2*time.Second), "srvoff")), 1)
 	w.net.OnSend = nil
+	// DRKey epochs (keys change every few virtual seconds in some runs) and an unavailable
+	// daemon on the server side (a fault the driver switches on for single measurements)
+	w.dc.epochLen = []time.Duration{0, 0, 3 * time.Second, 11 * time.Second}[tp.Intn(4, "epochlen")]
+	daemonFaults := tp.Bool(1, 3, "daemonfaults")
 	srvAuth := tp.Bool(2, 3, "srvauth")
 	cliAuth := tp.Bool(2, 3, "cliauth")
 	srvDSCP := uint8([]int{0, 0, 10, 46, 63}[tp.Intn(5, "sdscp")])
@@ -93,15 +98,19 @@ func c13World(t *testing.T, r *simcore.Run) any {
 	laddr, raddr := w.udpAddrs()
 	// the host-to-host key of a packet is determined by the server-side and client-side
 	// SCION addresses it carries (whichever direction it travels)
-	keyOf := func(p *scionPkt) []byte {
-		src, _ := netip.AddrFromSlice(p.scn.RawSrcAddr)
-		dst, _ := netip.AddrFromSlice(p.scn.RawDstAddr)
-		if p.scn.DstIA == scSrvIA {
-			return w.dc.hostHostKey(p.scn.DstIA, p.scn.SrcIA, dst.Unmap().String(), src.Unmap().String())
+	// (and, when keys have epochs, by the instant the verifying side names: the server its
+	// receive timestamp, the client the time it took before building the request)
+	keyAt := func(at time.Time) func(p *scionPkt) []byte {
+		return func(p *scionPkt) []byte {
+			src, _ := netip.AddrFromSlice(p.scn.RawSrcAddr)
+			dst, _ := netip.AddrFromSlice(p.scn.RawDstAddr)
+			if p.scn.DstIA == scSrvIA {
+				return hostHostKeyFrom(w.dc.hostASAt(scion.DRKeyProtocolTS, p.scn.DstIA, p.scn.SrcIA, dst.Unmap().String(), at).Key, src.Unmap().String())
+			}
+			return hostHostKeyFrom(w.dc.hostASAt(scion.DRKeyProtocolTS, p.scn.SrcIA, p.scn.DstIA, src.Unmap().String(), at).Key, dst.Unmap().String())
 		}
-		return w.dc.hostHostKey(p.scn.SrcIA, p.scn.DstIA, src.Unmap().String(), dst.Unmap().String())
 	}
-	key := keyOf
+	keyOf := func(p *scionPkt) []byte { return keyAt(w.srv.Clock.At(time.Now()))(p) }
 	cl := &client.SCIONClient{Log: quietLog(), DSCP: cliDSCP, InterleavedMode: tp.Bool(1, 3, "interleaved")}
 	if cliAuth {
 		cl.Auth.Enabled = true
@@ -138,7 +147,31 @@ func c13World(t *testing.T, r *simcore.Run) any {
 			spiPat = []byte{0x00, 0x02, 0x00, 0x7b}
 		}
 		at := bytes.Index(mut, spiPat)
-		switch tp.Intn(9, "tkind") {
+		switch tp.Intn(11, "tkind") {
+		case 9: // re-sealed under the key that follows from an all-zero first-level key
+			if at < 0 || !p.toSrv {
+				return false, nil
+			}
+			kind = "remac-under-zero-first-level-key"
+			src, _ := netip.AddrFromSlice(p.scn.RawSrcAddr)
+			if rb := c13Rebuild(p, "", hostHostKeyFrom(drkey.Key{}, src.Unmap().String()), scion.PacketAuthSPIClient, false, false); rb != nil {
+				mut = rb
+			} else {
+				return false, nil
+			}
+		case 10: // re-sealed under the previous epoch's key
+			if at < 0 || !p.toSrv || w.dc.epochLen == 0 {
+				return false, nil
+			}
+			kind = "remac-under-previous-epoch-key"
+			src, _ := netip.AddrFromSlice(p.scn.RawSrcAddr)
+			dst, _ := netip.AddrFromSlice(p.scn.RawDstAddr)
+			old := w.dc.hostASAt(scion.DRKeyProtocolTS, p.scn.DstIA, p.scn.SrcIA, dst.Unmap().String(), time.Now().Add(-w.dc.epochLen))
+			if rb := c13Rebuild(p, "", hostHostKeyFrom(old.Key, src.Unmap().String()), scion.PacketAuthSPIClient, false, false); rb != nil {
+				mut = rb
+			} else {
+				return false, nil
+			}
 		case 7: // a hop-by-hop extension in front of the end-to-end extension, MAC damaged
 			if at < 0 {
 				return false, nil
@@ -254,12 +287,21 @@ func c13World(t *testing.T, r *simcore.Run) any {
 					return
 				}
 				// authentication
+				key := keyAt(w.srv.Clock.At(cause.ArrivedAt)) // the listener names its receive timestamp
 				present, valid := macVerdict(reqRaw, key, scion.PacketAuthSPIClient)
-				if srvAuth && present && !valid {
+				if srvAuth && present && !valid && w.dc.failHostAS {
+					// The listener could not get a key: it serves the request the way it serves one without
+					// an authenticator - and then its reply must not claim authentication either.
+					if rpresent, _ := macVerdict(d.Payload, key, scion.PacketAuthSPIServer); rpresent {
+						r.Fail("C13", "request/bad-mac-authenticated", "while the daemon was unavailable, a request whose authenticator does not verify was answered with a server authenticator (tamper: %q)", tampered[cause.Cause])
+						return
+					}
+					r.Probe("served-unauthenticated-while-daemon-down")
+				} else if srvAuth && present && !valid {
 					r.Fail("C13", "request/bad-mac-served", "a request whose authenticator does not verify was served (tamper: %q)", tampered[cause.Cause])
 					return
 				}
-				if srvAuth && present && valid {
+				if srvAuth && present && valid && !w.dc.failHostAS {
 					rpresent, rvalid := macVerdict(d.Payload, key, scion.PacketAuthSPIServer)
 					if !rpresent || !rvalid {
 						r.Fail("C13", "reply/authenticator", "reply to a verified request: authenticator present=%v verifies=%v (server DSCP %d, client DSCP %d)", rpresent, rvalid, srvDSCP, cliDSCP)
@@ -302,7 +344,7 @@ func c13World(t *testing.T, r *simcore.Run) any {
 			return
 		}
 		if cliAuth {
-			present, valid := macVerdict(last.Payload, key, scion.PacketAuthSPIServer)
+			present, valid := macVerdict(last.Payload, keyAt(w.dc.lastHH), scion.PacketAuthSPIServer)
 			if present && !valid {
 				r.Fail("C13", "response/bad-mac-accepted", "the client accepted a response whose authenticator does not verify")
 				return
@@ -319,7 +361,14 @@ func c13World(t *testing.T, r *simcore.Run) any {
 	okN, failN := 0, 0
 	craft := func(l4dst uint16, underlayPort int, scmpType slayers.SCMPType, pld []byte) {
 		// a packet from the attacker's side of the router straight to a server socket
-		raw := buildSCION(scCliIA, scSrvIA, scCliIP, scSrvIP, 41000, l4dst, segLens, scmpType, pld)
+		// (the sending host's address is of the other family than the server's in a third of the
+		// crafted packets: SCION carries the two host addresses with separate type/length fields)
+		srcIP := scCliIP
+		if tp.Bool(1, 3, "mixedfamily") {
+			srcIP = map[bool]string{true: "10.9.9.9", false: "fd00:9::9"}[scV6]
+			r.Probe("mixed-address-families")
+		}
+		raw := buildSCION(scCliIA, scSrvIA, srcIP, scSrvIP, 41000, l4dst, segLens, scmpType, pld)
 		d := w.net.NewDatagram(netip.AddrPortFrom(netip.MustParseAddr(scRouterIP(0)), scRouterPort),
 			netip.AddrPortFrom(netip.MustParseAddr(scSrvIP), uint16(underlayPort)), raw, "crafted")
 		w.net.Inject(d, 40*time.Microsecond)
@@ -330,7 +379,19 @@ func c13World(t *testing.T, r *simcore.Run) any {
 			if r.Sleep(fmt.Sprintf("gap:%d", k), w.cli.Node, time.Duration(tp.Range(int64(10*time.Millisecond), int64(2*time.Second), "gap"))).Killed {
 				return
 			}
-			switch tp.Intn(6, "action") {
+			w.dc.failHostAS = false
+			daemonDown := daemonFaults && tp.Bool(1, 4, "daemondown")
+			if daemonDown {
+				w.dc.failHostAS = true
+				r.Fault("drkey-daemon-unavailable")
+			}
+			switch tp.Intn(7, "action") {
+			case 6: // a plain NTP request from a scripted host (possibly of the other address family)
+				req := make([]byte, 48)
+				req[0] = 0x23
+				req[40] = byte(k + 1)
+				craft(scSvcPort, scSvcPort, 0, req)
+				r.Probe("crafted-ntp-request")
 			case 0: // SCMP echo / traceroute request
 				typ := []slayers.SCMPType{slayers.SCMPTypeEchoRequest, slayers.SCMPTypeTracerouteRequest}[tp.Intn(2, "scmpt")]
 				pld := make([]byte, 8+tp.Intn(40, "scmplen"))
@@ -389,7 +450,7 @@ func c13World(t *testing.T, r *simcore.Run) any {
 				if err != nil || len(filter.calls) == calls0 {
 					failN++
 					r.Probe("measurement-failed")
-					if tamperRate == 0 {
+					if tamperRate == 0 && !daemonDown && w.dc.epochLen == 0 {
 						r.Fail("C13", "genuine/failed", "measurement %d failed although nothing was tampered: %v", k, err)
 						return
 					}
